@@ -1043,6 +1043,7 @@ pub fn main(args: &[String]) {
         // a case that crashes the process (memory unsafety in the code under test) must not take the finished
         // cases with it: the parent counts the `#end` lines it got and restarts behind the crashed case
         let _ = lock.flush();
+        crate::recycle_if_leaky(i + 1);
       }
     }
     let _ = lock.flush();
